@@ -165,7 +165,9 @@ def lib_unit(clsname, kind):
         is_file = V.choose([True, False], "is_file")
         open_fails = V.choose([False, True], "open-fails") if is_file else False
         # overwrite=True recreates the file with the current magic: whatever an old file at that path contained is irrelevant
-        overwrite = V.choose([False, True], "overwrite")
+        # how the library is opened: for reading, for writing into the existing file (which may be a legacy one), or recreating it
+        how = V.choose(["readonly", "writable", "overwrite"], "opened")
+        overwrite = how == "overwrite"
         Path = I.ext_models["pathlib.Path"]
         Path.ns["is_file"] = Builtin("Path.is_file", lambda i, a, k: is_file)
         stream = Obj(I.StreamCls, {"path": None, "mode": "rb", "closed": False, "owned": True}, tag="stream")
@@ -186,12 +188,12 @@ def lib_unit(clsname, kind):
             for d in ("_serialize", "_deserialize"):
                 q = f"{IO}:{d}_{kind}_v{v}"
                 I.stubs[q] = (lambda q_: lambda I_, fv, a, k: calls.setdefault("codec", []).append((q_, a)) or Opaque(f"obj:out:{q_}"))(q)
-        V.witness(lambda ev: {"op": "library-version", "cls": clsname, "overwrite": overwrite, "signature": f"library-version/{clsname}"})
+        V.witness(lambda ev: {"op": "library-version", "cls": clsname, "overwrite": overwrite, "readonly": how == "readonly", "signature": f"library-version/{clsname}/{how}"})
         V.cover()
         cls = V.cls(f"{LIB}:{clsname}")
         I.target = f"{LIB}:{clsname}.__init__"
         try:
-            lib = I.call(cls, [V.sym("path", "str")], {"overwrite": overwrite, "readonly": not overwrite})
+            lib = I.call(cls, [V.sym("path", "str")], {"overwrite": overwrite, "readonly": how == "readonly"})
         except PyExc as e:
             V.ensure("post/constructs", z3.BoolVal(False))
             return
